@@ -1,7 +1,17 @@
 import os
 # repairs the model expects: "cachecopy" (sector cache holds private copies), "rollbackchecked" (StoreSector rollback is conditional)
 VOLUMES_FIXES = "cachecopy rollbackchecked syncserial resizelocked"
+# second engine: the `mdm` wire harness (real host, real VolumeManager on real volume files, attacked over RHP2/RHP3)
+# observes that the RPC handlers follow the upload protocol the volumes model assumes: when an upload-carrying RPC
+# reports success, no slot holding a referenced sector is still waiting for its fsync (monitor c02/rpc_commit_synced/<site>).
+# Same repaired-sites list as C14 (lib/props.d/C14.py FIXED_IN_REPO / VERIF_MDM_FIXED).
+import re as _re
+_m = _re.search(r"^FIXED_IN_REPO\s*=\s*\[([^\]]*)\]", open(os.path.join(os.path.dirname(os.path.abspath(__file__)), "C14.py")).read(), _re.M)
+_mdm_fixed = os.environ["VERIF_MDM_FIXED"].split() if os.environ.get("VERIF_MDM_FIXED") is not None else [x.strip() for x in (_m.group(1) if _m else "").split(",") if x.strip()]
 PROP = dict(
+        also=[dict(engine="mdm", harness="mdm", driver="drv_mdm", driver_args=_mdm_fixed, flag_filter=r"^c02/", corpus_filter=r"^c02_",
+                   case_mode=True, extra=dict(focus="uploads"), nontrivial=r"res=accept", min_ops=1, min_kinds=1,
+                   quick=dict(n=160, len=1, shards=8, timeout=300), thorough=dict(n=3200, len=1, shards=16, timeout=1500))],
         engine="volumes", harness="volumes", driver="drv_volumes",
         driver_args=(os.environ.get("VERIF_VOLUMES_FIXES") or VOLUMES_FIXES).split(),
         props=["Hostd.Props.C02"],
